@@ -144,7 +144,64 @@ def aborted_then_completed(a):
     return out
 
 
+def locale_phase(a):
+    """(child; phase `continue` runs with LC_ALL=C and UTF-8 mode off, i.e. with an ASCII default text encoding) a dataset whose lists
+    hold non-ASCII shard metadata is continued by a process with another locale, into the same directories."""
+    from pathlib import Path
+    import shutil
+    from harness.core import sp
+    sp.sedpack()
+    from sedpack.io import Dataset
+    from sedpack.io.dataset_filler import DatasetFiller
+    root = Path(a["root"])
+    md = {"site": "Zürich", "note": "ünï©ødé ☃"}
+    if a["phase"] == "create":
+        shutil.rmtree(root, ignore_errors=True)
+        ds = sp.mk(root, fmt=a["fmt"], eps=2, hashes=tuple(a["hashes"]))
+        for sub, lo in ((".", 0), ("site_a", 100)):
+            with DatasetFiller(ds, relative_path_from_split=Path(sub)) as f:
+                for v in range(lo, lo + 5):
+                    f.write_example(values=sp.val(v), split="train", custom_metadata=md)
+        return {"ids": sorted(sp.read_ids(Dataset(root), "train"))}
+    if a["phase"] == "continue":
+        import locale
+        out = {"encoding": locale.getpreferredencoding(False), "sessions": []}
+        for sub, lo in ((".", 1000), ("site_a", 1100)):
+            try:
+                with DatasetFiller(Dataset(root), relative_path_from_split=Path(sub)) as f:
+                    for v in range(lo, lo + 3):
+                        f.write_example(values=sp.val(v), split="train", custom_metadata=md)
+                out["sessions"].append({"sub": sub, "outcome": "completed", "new": list(range(lo, lo + 3))})
+            except Exception as e:  # noqa: BLE001
+                out["sessions"].append({"sub": sub, "outcome": f"refused: {type(e).__name__}: {str(e)[:100]}", "new": []})
+        return out
+    res = {}
+    try:
+        d = Dataset(root)
+        res["ids"] = sorted(sp.read_ids(d, "train"))
+    except Exception as e:  # noqa: BLE001  (the real code's behaviour on what the sessions left behind: reported, not a harness failure)
+        res["ids"] = f"reading failed: {type(e).__name__}: {str(e)[:120]}"
+    try:
+        Dataset(root).check(show_progressbar=False); res["check"] = "pass"
+    except Exception as e:  # noqa: BLE001
+        res["check"] = f"{type(e).__name__}: {str(e)[:120]}"
+    shutil.rmtree(root, ignore_errors=True)
+    return res
+
+
 def run(ctx):
+    # ---- a further session by a process whose default text encoding differs (ASCII) into directories whose lists hold non-ASCII text:
+    # completed or refused — either way nothing committed before is lost
+    for j in range(ctx.pick(1, 2)):
+        la = {"root": str(ctx.scratch / f"c08_locale{j}"), "fmt": ["npz", "fb", "tfrec"][(j + ctx.seed) % 3], "hashes": [["sha256"], []][j % 2]}
+        before = child.call("harness.checks.c08", "locale_phase", dict(la, phase="create"), timeout=600)["ids"]
+        mid = child.call("harness.checks.c08", "locale_phase", dict(la, phase="continue"), timeout=600, env={"LC_ALL": "C", "LANG": "C", "PYTHONUTF8": "0", "PYTHONCOERCECLOCALE": "0"})
+        after = child.call("harness.checks.c08", "locale_phase", dict(la, phase="verify"), timeout=600)
+        want = sorted(before + [v for s_ in mid["sessions"] if s_["outcome"] == "completed" for v in s_["new"]])
+        if after["ids"] != want:
+            ctx.report({"kind": "append-only", "other_locale": True},
+                       f"sessions by a process with default text encoding {mid['encoding']} ({[s_['outcome'] for s_ in mid['sessions']]}) into directories whose lists hold non-ASCII metadata: "
+                       f"the dataset now returns {after['ids']}, expected {want} (lost {sorted(set(want) - set(after['ids'] if isinstance(after['ids'], list) else []))[:8]})", {"case": la, "sessions": mid["sessions"], "before": before, "after": after})
     nest = child.call("harness.checks.c08", "nested_sessions",
                       [{"root": str(ctx.scratch / f"c08n_{i}"), "fmt": ["fb", "npz", "tfrec"][i % 3], "eps": 1 + i % 3, "multi": bool(i % 2)} for i in range(ctx.pick(3, 9))], timeout=900)
     for r in nest:
